@@ -12,7 +12,7 @@ INV = {
     'C06': ['Inv_C06_AvailableJustified', 'Inv_C06_ControllerOf', 'Inv_C06_SucceededWhenAvailable', 'Act_C06_SucceededSticky',
             'Inv_C06_InTransition', 'Inv_C06_Archived', 'Inv_C06_ArchivedNotReconciled'],
     'C07': ['Inv_C07_CreateJustified', 'Inv_C07_AtMostOnePerTemplateEpoch', 'Inv_C07_RevisionsUnique', 'Inv_C07_RevisionIncreasing', 'Inv_C07_NoReuse', 'Inv_C07_ProgressOnMismatch', 'Conf_DeployPlan'],
-    'C08': ['Inv_C08_ArchiveOnlyPaused', 'Inv_C08_NewestNeverArchived', 'Inv_C08_ArchiveCondition', 'Inv_C08_PruneOldestOnly', 'Inv_C08_SharedObjectNotDeleted', 'Conf_DeployPlan'],
+    'C08': ['Inv_C08_ArchiveOnlyPaused', 'Inv_C08_NewestNeverArchived', 'Inv_C08_ArchiveCondition', 'Inv_C08_PruneOldestOnly', 'Inv_C08_SharedObjectNotDeleted', 'Inv_C05_DeletedWasControlled', 'Conf_DeployPlan'],
     'C09': ['Inv_C09_NoWritesWhilePaused', 'Inv_C09_StillReports', 'Inv_C09_DeploymentPausedNoRevisionChange', 'Inv_C09_ReleaseExactlyMarked', 'Inv_C09_Propagation', 'Inv_C09_PackagePaused', 'Inv_C09_PhasePauseFollows', 'Inv_C09_PhasePauseBehindFailure', 'Conf_DeployPlan', 'Conf_RemotePhase'],
     'C10': ['Inv_C10_Quiescent', 'Inv_C10_SameOutcome', 'Inv_C10_DigestMatchesStore', 'Inv_C19_NoPanic'],
     'C11': ['Inv_C11_PhaseAllOrNothing', 'Inv_C11_Scope', 'Inv_C11_Reported', 'Inv_C11_NoWriteIfViolating', 'Inv_C11_ViolationReported'],
@@ -419,7 +419,9 @@ CHECKS = {
         ('deploy-api', DEPLOY, 'deploy', 'api', 160, 3000, 250)])),
     'C08': dict(level='model_checking', invariants=INV['C08'], assumptions=ASSUME, mc=deploy_mc('C08'), jobs=sched_jobs([
         ('deploy-atomic', DEPLOY, 'deploy', 'atomic', 160, 3000, 160),
-        ('deploy-api', DEPLOY, 'deploy', 'api', 120, 2000, 250)])),
+        ('deploy-api', DEPLOY, 'deploy', 'api', 120, 2000, 250),
+        # an object shared by a revision's local phase and another revision's delegated phase: the two controllers race
+        ('deploy-race-api', 'deploy-delegated-3rev,deploy-delegated', 'deploy-race', 'api', 160, 3000, 500)])),
     'C09': dict(level='model_checking', invariants=INV['C09'], assumptions=ASSUME, mc=lambda tier: design_mc(MCINV['C09'])(tier) + phase_mc(tier), jobs=lambda tier, seed: [
         dict(name='package-pause', shards=4 if tier == 'quick' else 14,
              driver=['package-walk', '-mode', 'atomic', '-n', '80' if tier == 'quick' else '2000', '-steps', '70', '-seed', str(seed)])] + sched_jobs([
